@@ -7,6 +7,7 @@ mod uni;
 mod pool;
 mod stack;
 mod zcq;
+mod avg;
 
 use std::io::{BufRead, Write};
 
@@ -30,6 +31,7 @@ fn main() {
             "pool" => pool::run(&case),
             "stack" => stack::run(&case),
             "zcq" => zcq::run(&case),
+            "avg" => avg::run(&case),
             other  => panic!("unknown case kind '{other}'"),
         };
         let text: Vec<String> = trace.iter().map(|v| v.to_string()).collect();
